@@ -15,6 +15,7 @@ pub mod c14;
 pub mod c15;
 pub mod c16;
 pub mod c17;
+pub mod c19;
 
 use crate::common::Tier;
 use serde_json::Value;
@@ -39,6 +40,7 @@ pub fn run(prop: &str, tier: Tier) -> i32 {
         "C15" => c15::run(tier),
         "C16" => c16::run(tier),
         "C17" => c17::run(tier),
+        "C19" => c19::run(tier),
         _ => {
             eprintln!("unknown property {prop}");
             2
@@ -66,6 +68,7 @@ pub fn replay(prop: &str, case: &Value) -> Vec<String> {
         "C15" => c15::replay(case),
         "C16" => c16::replay(case),
         "C17" => c17::replay(case),
+        "C19" => c19::replay(case),
         _ => vec![],
     }
 }
